@@ -7582,7 +7582,14 @@ void SoPlexBase<R>::_addColReal(R obj, R lower, const SVectorBase<R>& lpcol, R u
    if(_isRealLPLoaded)
       _hasBasis = (_solver.basis().status() > SPxBasisBase<R>::NO_PROBLEM);
    else if(_hasBasis)
-      _basisStatusRows.append(SPxSolverBase<R>::BASIC);
+   {
+      if(lower > -realParam(SoPlexBase<R>::INFTY))
+         _basisStatusCols.append(SPxSolverBase<R>::ON_LOWER);
+      else if(upper < realParam(SoPlexBase<R>::INFTY))
+         _basisStatusCols.append(SPxSolverBase<R>::ON_UPPER);
+      else
+         _basisStatusCols.append(SPxSolverBase<R>::ZERO);
+   }
 
    _rationalLUSolver.clear();
 }
